@@ -4,6 +4,7 @@ import InToto.Proofs.PipeInspect
 import InToto.Proofs.RulesMore
 import InToto.Model.Validate
 import InToto.Proofs.Sublayout
+import InToto.Proofs.Pipeline
 
 namespace InToto.NoPanicProofs
 open InToto InToto.Json InToto.Schema InToto.Metadata InToto.Verify InToto.PipeProofs
@@ -100,6 +101,72 @@ theorem ite_np {c : Prop} [Decidable c] {a b : Result} (ha : a.out.isPanic = fal
   · exact ha
   · exact hb ‹_›
 
+/-! ### stages of the pipeline -/
+
+theorem countLinks_no_panic (W : World) (lay : TVal) (roots : List Str) (loaded : List (Step × List (Str × Md))) :
+    (countLinks W lay roots loaded).isPanic = false := by
+  induction loaded with
+  | nil => rfl
+  | cons sl rest ih =>
+    obtain ⟨st, links⟩ := sl
+    rw [countLinks]
+    split
+    · rfl
+    · rename_i h; exact (np_absurd h (verifiedLinks_no_panic ..)).elim
+    · split
+      · rfl
+      · split
+        · rfl
+        · rfl
+        · rename_i h; exact (np_absurd h ih).elim
+
+theorem countedStage_no_panic (W : World) (lay : TVal) (dir : Dir) : (countedStage W lay dir).isPanic = false := by
+  unfold countedStage
+  dsimp only
+  split
+  · rfl
+  · exact countLinks_no_panic ..
+
+/-- reduction panics only on a step without links, which `finishStage` excludes beforehand -/
+theorem reduceAll_no_panic (res : List (Step × List (Str × LinkView)))
+    (hne : ¬ (res.any fun sl => sl.2.isEmpty) = true) : (reduceAll res).isPanic = false := by
+  unfold reduceAll
+  apply foldl_inv (fun o : Outcome (List (Str × LinkView)) => o.isPanic = false)
+  · rfl
+  · intro b sl hsl hb
+    split
+    · split
+      · rfl
+      · rfl
+      · rename_i h
+        have h1 : (reduceStep sl.2).isPanic = true := by rw [h]; rfl
+        have h2 := (reduceStep_panic_iff _).1 h1
+        exfalso
+        apply hne
+        rw [List.any_eq_true]
+        exact ⟨sl, hsl, by rw [h2]; rfl⟩
+    · exact hb
+
+theorem finishStage_no_panic (W : World) (rd : RunDirState) (sn : Str) (lay : TVal)
+    (res : List (Step × List (Str × LinkView))) (acc1 : Acc) :
+    (finishStage W rd sn lay res acc1).out.isPanic = false := by
+  unfold finishStage
+  dsimp only
+  apply ite_np rfl; intro hany
+  split
+  · rfl
+  · rename_i h; exact (np_absurd h (reduceAll_no_panic res hany)).elim
+  split
+  · rfl
+  · rename_i h; exact (np_absurd h (verifyArtifacts_no_panic ..)).elim
+  split
+  · rfl
+  · rename_i h; exact (np_absurd h (runInspections_no_panic ..)).elim
+  split
+  · rfl
+  · rename_i h; exact (np_absurd h (verifyArtifacts_no_panic ..)).elim
+  · rfl
+
 /-- MAIN (C15): the whole pipeline, at every nesting depth and through either entry point, never
     ends in a panic — the model's explicit panic sites are unreachable -/
 theorem verifyAux_no_panic (W : World) (ln : Bool) (ci : List Str) (fuel : Nat) (md : Md)
@@ -126,55 +193,12 @@ theorem verifyAux_no_panic (W : World) (ln : Bool) (ci : List Str) (fuel : Nat) 
     apply ite_np rfl; intro _
     split
     · rfl
-    split
-    · rfl
-    · rename_i h
-      refine (np_absurd h ?_).elim
-      apply foldl_inv (fun o : Outcome (List (Step × List (Str × Md))) => o.isPanic = false)
-      · rfl
-      · intro b a _ hb
-        split
-        · split
-          · split <;> rfl
-          · rfl
-          · rename_i h; exact (np_absurd h (verifiedLinks_no_panic ..)).elim
-        · exact hb
+    · rename_i h; exact (np_absurd h (countedStage_no_panic ..)).elim
     split
     · rfl
     · rename_i h
       refine (np_absurd h ?_).elim
       exact SubProofs.resolveSteps_no_panic _ _ _ _ _ (fun md ks d s a => ih md ks d s [] .none a)
-    rename_i res hres
-    clear hres
-    apply ite_np rfl; intro hany
-    split
-    · rfl
-    · rename_i h
-      refine (np_absurd h ?_).elim
-      apply foldl_inv (fun o : Outcome (List (Str × LinkView)) => o.isPanic = false)
-      · rfl
-      · intro b sl hsl hb
-        split
-        · split
-          · rfl
-          · rfl
-          · rename_i h
-            have h1 : (reduceStep sl.2).isPanic = true := by rw [h]; rfl
-            have h2 := (reduceStep_panic_iff _).1 h1
-            exfalso
-            apply hany
-            rw [List.any_eq_true]
-            exact ⟨sl, hsl, by rw [h2]; rfl⟩
-        · exact hb
-    split
-    · rfl
-    · rename_i h; exact (np_absurd h (verifyArtifacts_no_panic ..)).elim
-    split
-    · rfl
-    · rename_i h; exact (np_absurd h (runInspections_no_panic ..)).elim
-    split
-    · rfl
-    · rename_i h; exact (np_absurd h (verifyArtifacts_no_panic ..)).elim
-    · rfl
+    exact finishStage_no_panic ..
 
 end InToto.NoPanicProofs
